@@ -146,7 +146,36 @@ func genRequest(t *rapid.T, o GenOpts) GenReq {
 	req["methodParameters"] = s.genMethodParams(req)
 	req["biases"] = s.genBiases(req)
 	req["biasApplyRandomSeed"] = g.Seed()
+	// an absent seed is seed 0 (and must not inherit the seed an earlier request or bias carried)
+	if dropSeeds(g, req) > 0 {
+		s.label("seedAbsent")
+	}
 	return GenReq{Req: req, Labels: s.labels}
+}
+
+var seedKeys = map[string]bool{"randomSeed": true, "newCriterionRandomSeed": true, "biasApplyRandomSeed": true}
+
+// dropSeeds removes each seed field of the request with probability 1/8 (keys visited in sorted order).
+func dropSeeds(g G, x interface{}) int {
+	n := 0
+	switch v := x.(type) {
+	case M:
+		for _, k := range sortedKeys(v) {
+			if seedKeys[k] {
+				if g.Chance(1, 8) {
+					delete(v, k)
+					n++
+				}
+				continue
+			}
+			n += dropSeeds(g, v[k])
+		}
+	case []interface{}:
+		for _, e := range v {
+			n += dropSeeds(g, e)
+		}
+	}
+	return n
 }
 
 func (s *genState) genProblem(req M) {
